@@ -31,13 +31,16 @@ func (a *axis) set(doc J, v any) {
 // belongs to this shard (and skips it if not), so that documents are only
 // built where they are evaluated; put() hands over an owned case.
 type sink struct {
-	own func() bool
-	put func(doc J, desc string)
+	own  func() bool
+	put  func(doc J, desc string)
+	putL func(doc J, desc string, smoke int) // put with an explicit smoke level
 }
 
 // prefixed returns a sink that prepends p to every case description.
 func (s *sink) prefixed(p string) *sink {
-	return &sink{own: s.own, put: func(doc J, desc string) { s.put(doc, p+desc) }}
+	return &sink{own: s.own,
+		put:  func(doc J, desc string) { s.put(doc, p+desc) },
+		putL: func(doc J, desc string, smoke int) { s.putL(doc, p+desc, smoke) }}
 }
 
 type kase struct {
@@ -45,7 +48,7 @@ type kase struct {
 	group string
 	desc  string // canonical description of the choices made
 	doc   J
-	smoke bool // eligible for Part C when accepted
+	smoke int // Part C when accepted: 0 never, 1 quick and thorough, 2 thorough only
 }
 
 var pmtudLetters = []any{omitted, "", "default", "system", "dont", "do", "probe", "want", "interface", "omit", "bogus"}
